@@ -86,8 +86,15 @@ static void do_call(Session& s, const CallSpec& c, CallResult& r, std::string& p
         s.delivered = c.bytes;
         s.tainted = false;
         s.load_threw = false;
-    } else if (!s.doc) {
-        s.doc = std::make_unique<Document>();
+    } else {
+        if (s.tainted) {
+            // a document hit by an injected allocation failure is dropped by its client, never used again
+            s.drop();
+            s.tainted = false;
+            s.has_load = false;
+        }
+        if (!s.doc)
+            s.doc = std::make_unique<Document>();
     }
     Document* doc = s.doc.get();
     std::ostringstream pretty;
